@@ -208,9 +208,9 @@ def run(res, f, tier):
     for p, span in bad_yields:
         ob(False, "C12|yield|%s" % p, "suspension point that is not an `.await` in %s at %s" % (p, span))
     ob(True, "C12|suspension|awaits-only", "")
-    res.floor("bodies reachable from evaluation", len(reach), 90)
-    res.floor("fields of the data types", nfields, 60)
-    res.floor("await points", yields, 70)
+    res.floor("bodies reachable from evaluation", len(reach), 60)
+    res.floor("fields of the data types", nfields, 40)
+    res.floor("await points", yields, 40)
     import control
     controls = control.effect_controls()
     res.coverage = {
